@@ -8,6 +8,7 @@ import (
 	"github.com/ethereum/go-ethereum/ethdb"
 	"github.com/holiman/uint256"
 	ctrlertypes "github.com/rigochain/rigo-go/ctrlers/types"
+	"github.com/rigochain/rigo-go/libs/verifhook"
 	types2 "github.com/rigochain/rigo-go/types"
 	"github.com/rigochain/rigo-go/types/bytes"
 	tmlog "github.com/tendermint/tendermint/libs/log"
@@ -43,6 +44,7 @@ func NewStateDBWrapper(db ethdb.Database, rootHash bytes.HexBytes, acctHandler c
 }
 
 func (s *StateDBWrapper) Prepare(txhash bytes.HexBytes, txidx int, from, to types2.Address, snap int, exec bool) {
+	verifhook.EvmOp("Prepare", from, to, snap, exec)
 	s.exec = exec
 	s.snapshot = snap
 	s.StateDB.Prepare(txhash.Array32(), txidx)
@@ -63,11 +65,13 @@ func (s *StateDBWrapper) Finish() {
 		acct.SetNonce(nonce)
 
 		_ = s.acctHandler.SetAccountCommittable(acct, s.exec)
+		verifhook.EvmOp("WriteBack", addr, nonce, amt)
 
 		//s.logger.Debug("Finish", "address", acct.Address, "nonce", acct.Nonce, "balance", acct.Balance.Dec(), "snap", v)
 	}
 
 	// issue #68
+	verifhook.EvmOp("Finish")
 	s.accessedObjAddrs = make(map[common.Address]int)
 }
 
@@ -78,26 +82,36 @@ func (s *StateDBWrapper) Close() error {
 }
 
 func (s *StateDBWrapper) CreateAccount(addr common.Address) {
+	verifhook.EvmOp("CreateAccount", addr)
 	s.StateDB.CreateAccount(addr)
 }
 
 func (s *StateDBWrapper) SubBalance(addr common.Address, amt *big.Int) {
+	verifhook.EvmOp("SubBalance", addr, amt)
 	s.StateDB.SubBalance(addr, amt)
 }
 
 func (s *StateDBWrapper) AddBalance(addr common.Address, amt *big.Int) {
+	verifhook.EvmOp("AddBalance", addr, amt)
 	s.StateDB.AddBalance(addr, amt)
 }
 
 func (s *StateDBWrapper) GetBalance(addr common.Address) *big.Int {
+	if verifhook.Enabled {
+		verifhook.EvmOp("GetBalance", addr, s.StateDB.GetBalance(addr))
+	}
 	return s.StateDB.GetBalance(addr)
 }
 
 func (s *StateDBWrapper) GetNonce(addr common.Address) uint64 {
+	if verifhook.Enabled {
+		verifhook.EvmOp("GetNonce", addr, s.StateDB.GetNonce(addr))
+	}
 	return s.StateDB.GetNonce(addr)
 }
 
 func (s *StateDBWrapper) SetNonce(addr common.Address, n uint64) {
+	verifhook.EvmOp("SetNonce", addr, n)
 	s.StateDB.SetNonce(addr, n)
 }
 
@@ -110,6 +124,7 @@ func (s *StateDBWrapper) GetCode(addr common.Address) []byte {
 }
 
 func (s *StateDBWrapper) SetCode(addr common.Address, code []byte) {
+	verifhook.EvmOp("SetCode", addr, len(code))
 	s.StateDB.SetCode(addr, code)
 }
 
@@ -138,10 +153,12 @@ func (s *StateDBWrapper) GetState(addr common.Address, hash common.Hash) common.
 }
 
 func (s *StateDBWrapper) SetState(addr common.Address, key, value common.Hash) {
+	verifhook.EvmOp("SetState", addr, key, value)
 	s.StateDB.SetState(addr, key, value)
 }
 
 func (s *StateDBWrapper) Suicide(addr common.Address) bool {
+	verifhook.EvmOp("Suicide", addr)
 	return s.StateDB.Suicide(addr)
 }
 
@@ -150,10 +167,16 @@ func (s *StateDBWrapper) HasSuicided(addr common.Address) bool {
 }
 
 func (s *StateDBWrapper) Exist(addr common.Address) bool {
+	if verifhook.Enabled {
+		verifhook.EvmOp("Exist", addr, s.StateDB.Exist(addr))
+	}
 	return s.StateDB.Exist(addr)
 }
 
 func (s *StateDBWrapper) Empty(addr common.Address) bool {
+	if verifhook.Enabled {
+		verifhook.EvmOp("Empty", addr, s.StateDB.Empty(addr))
+	}
 	return s.StateDB.Empty(addr)
 }
 
@@ -197,6 +220,7 @@ func (s *StateDBWrapper) addAccessedObjAddr(addr common.Address) {
 			stateObject.SetBalance(rigoAcct.Balance.ToBig())
 
 			s.accessedObjAddrs[addr] = s.snapshot + 1
+			verifhook.EvmOp("SyncIn", addr, rigoAcct.Nonce, rigoAcct.Balance, s.snapshot+1)
 
 			//s.logger.Debug("addAccessedObjAddr", "address", rigoAcct.Address, "nonce", rigoAcct.Nonce, "balance", rigoAcct.Balance.Dec(), "snap", s.snapshot+1)
 		}
@@ -208,6 +232,7 @@ func (s *StateDBWrapper) AddSlotToAccessList(addr common.Address, slot common.Ha
 }
 
 func (s *StateDBWrapper) RevertToSnapshot(revid int) {
+	verifhook.EvmOp("RevertToSnapshot", revid)
 	s.revertAccessedObjAddr(revid)
 	s.StateDB.RevertToSnapshot(revid)
 }
@@ -223,15 +248,18 @@ func (s *StateDBWrapper) revertAccessedObjAddr(snapshot int) {
 
 	for _, addr := range revertAddrs {
 		delete(s.accessedObjAddrs, addr)
+		verifhook.EvmOp("UnSync", addr)
 	}
 }
 
 func (s *StateDBWrapper) Snapshot() int {
 	s.snapshot = s.StateDB.Snapshot()
+	verifhook.EvmOp("Snapshot", s.snapshot)
 	return s.snapshot
 }
 
 func (s *StateDBWrapper) AddLog(log *types.Log) {
+	verifhook.EvmOp("AddLog", log.Address)
 	s.StateDB.AddLog(log)
 }
 
